@@ -168,17 +168,36 @@ def _if_paths(e, acc=None):
     yield acc, e
 
 
-def _full_type_comparison(crate, cond):
-    """`a != b` / `a == b` / a.ne(&b) over two values of the checker's Type: returns 'ne' / 'eq' / None"""
-    for x in walk(cond):
-        if x.get("k") == "Binary" and str(x.get("op")) in ("Ne", "Eq", "!=", "=="):
-            tl, tr = strip_generics(crate.ty(peel_refs(x["l"])).replace("&", "").strip()), strip_generics(crate.ty(peel_refs(x["r"])).replace("&", "").strip())
-            if tl.endswith("typed_ast::Type") and tr.endswith("typed_ast::Type"):
-                return "ne" if str(x.get("op")) in ("Ne", "!=") else "eq"
-        if x.get("k") == "MethodCall" and x["name"] in ("ne", "eq") and (callee(x) or "").endswith(("PartialEq>::ne", "PartialEq>::eq")):
-            if strip_generics(crate.ty(peel_refs(x["recv"])).replace("&", "").strip()).endswith("typed_ast::Type"):
-                return x["name"]
+def _full_type_comparison(crate, cond, inits=None, neg=False, depth=0):
+    """`a != b` / `a == b` / a.ne(&b) over two values of the checker's Type, possibly bound to a boolean local
+    (`let same_type = lhs_type == rhs_type; … if !same_type`): returns 'ne' / 'eq' / None (what holds when cond is true)"""
+    inits = inits or {}
+
+    def flip(k):
+        return {"ne": "eq", "eq": "ne"}[k] if neg else k
+
+    def is_type(e_):
+        return strip_generics(crate.ty(peel_refs(e_)).replace("&", "").strip()).endswith("typed_ast::Type")
+
+    x = peel(cond)
+    k = x.get("k")
+    if k == "Unary" and str(x.get("op")) in ("Not", "!"):
+        return _full_type_comparison(crate, x["e"], inits, not neg, depth)
+    if k == "Binary" and str(x.get("op")) in ("Ne", "Eq", "!=", "=="):
+        if is_type(x["l"]) and is_type(x["r"]):
+            return flip("ne" if str(x.get("op")) in ("Ne", "!=") else "eq")
+        return None
+    if k == "MethodCall" and x["name"] in ("ne", "eq") and (callee(x) or "").endswith(("PartialEq>::ne", "PartialEq>::eq")):
+        return flip(x["name"]) if is_type(x["recv"]) else None
+    if k == "Path" and x.get("res", {}).get("r") == "local" and x["res"].get("id") in inits and depth < 4:
+        return _full_type_comparison(crate, inits[x["res"]["id"]], inits, neg, depth + 1)
+    if k == "Binary" and str(x.get("op")) in ("&&", "||", "And", "Or"):
+        return _full_type_comparison(crate, x["l"], inits, neg, depth) or _full_type_comparison(crate, x["r"], inits, neg, depth)
+    if k in ("Block", "DropTemps", "Use") :
+        inner = x.get("tail") or x.get("e")
+        return _full_type_comparison(crate, inner, inits, neg, depth) if inner is not None else None
     return None
+
 
 def _branch_tails(body):
     """(value expression, enclosing branch block) for every branch of an if / else-if chain (or a plain block) that is
@@ -352,7 +371,7 @@ def rule_oblig(crate, select=None, min_rows=30):
             if leaf is not None and demands_dtype and closure_id is not None and Calls(crate, fe, leaf, tagmap).closure_called(closure_id):
                 differ = False
                 for cnd, pol in conds:
-                    fc = _full_type_comparison(crate, cnd)
+                    fc = _full_type_comparison(crate, cnd, inits)
                     if (fc == "ne" and pol is True) or (fc == "eq" and pol is False):
                         differ = True
                 if not differ:
@@ -365,7 +384,7 @@ def rule_oblig(crate, select=None, min_rows=30):
                     continue
             ok_ = False
             for cnd, pol in conds:
-                fc = _full_type_comparison(crate, cnd)
+                fc = _full_type_comparison(crate, cnd, inits)
                 if (fc == "ne" and pol is False) or (fc == "eq" and pol is True):
                     ok_ = True
             if not ok_:
